@@ -140,12 +140,12 @@ func (s *Server) RoundTrip(req *http.Request) (*http.Response, error) {
 	defer s.mu.Unlock()
 	s.seq++
 	s.Ended[req.Method+" "+key] = s.seq
-	resp := s.handle(req.Method, known, kind, name, key, body, req.Header.Get("Content-Type"))
+	resp := s.handle(req.Method, known, kind, name, key, body, req.Header.Get("Content-Type"), ns, req.URL.Query().Get("labelSelector"))
 	s.Log = append(s.Log, Req{Seq: s.seq, Method: req.Method, Key: key, Code: resp.StatusCode})
 	return resp, nil
 }
 
-func (s *Server) handle(method string, known bool, kind, name, key string, body []byte, ctype string) *http.Response {
+func (s *Server) handle(method string, known bool, kind, name, key string, body []byte, ctype string, ns, selector string) *http.Response {
 	if s.Dead {
 		return status(500, "InternalError", "process is dead (simulated crash)")
 	}
@@ -160,7 +160,7 @@ func (s *Server) handle(method string, known bool, kind, name, key string, body 
 	switch method {
 	case "GET":
 		if name == "" {
-			return status(405, "MethodNotAllowed", "list not supported")
+			return s.list(kind, ns, selector)
 		}
 		if !exists {
 			return status(404, "NotFound", fmt.Sprintf("%s %q not found", strings.ToLower(kind), name))
@@ -174,7 +174,6 @@ func (s *Server) handle(method string, known bool, kind, name, key string, body 
 		if err := json.Unmarshal(body, &o); err != nil {
 			return status(400, "BadRequest", err.Error())
 		}
-		storageVersion(kind, o)
 		s.Objs[key] = o
 		s.Muts = append(s.Muts, Mut{"create", key})
 		return okJSON(201, o)
@@ -186,8 +185,7 @@ func (s *Server) handle(method string, known bool, kind, name, key string, body 
 		if err := json.Unmarshal(body, &o); err != nil {
 			return status(400, "BadRequest", err.Error())
 		}
-		storageVersion(kind, o)
-		if !jsonEqual(cur, o) {
+		if !sameObject(kind, cur, o) {
 			s.Muts = append(s.Muts, Mut{"patch", key})
 		}
 		s.Objs[key] = o
@@ -221,8 +219,7 @@ func (s *Server) handle(method string, known bool, kind, name, key string, body 
 		if strings.Contains(ctype, "strategic-merge-patch") {
 			scrubTyped(o)
 		}
-		storageVersion(kind, o)
-		if !jsonEqual(cur, o) {
+		if !sameObject(kind, cur, o) {
 			s.Muts = append(s.Muts, Mut{"patch", key})
 		}
 		s.Objs[key] = o
@@ -258,14 +255,25 @@ func typedFor(kind string) interface{} {
 	return v1.ConfigMap{}
 }
 
-// storageVersion: a kind served under several versions of its API group (Deployment: apps/v1, apps/v1beta2,
-// apps/v1beta1 in the kubectl test mapper) is ONE stored object whatever version a request names; the
-// stand-in keeps it at the group's preferred version, so that moving a manifest from one version to
-// another is not by itself a change of the object.
-func storageVersion(kind string, o map[string]interface{}) {
-	if kind == "Deployment" && o != nil {
-		o["apiVersion"] = "apps/v1"
+// sameObject: a kind served under several versions of its API group (Deployment: apps/v1, apps/v1beta2,
+// apps/v1beta1 in the kubectl test mapper) is ONE stored object whatever version a request names, and a real
+// server answers in the version of the request.  The stand-in cannot see the requested version (the fake REST
+// client has no versioned paths), so it keeps the apiVersion the client last wrote - which is the version the
+// client asks for next - and does not count a change of that field alone as a change of the object.
+func sameObject(kind string, a, b map[string]interface{}) bool {
+	if kind != "Deployment" {
+		return jsonEqual(a, b)
 	}
+	strip := func(o map[string]interface{}) map[string]interface{} {
+		c := map[string]interface{}{}
+		for k, v := range o {
+			if k != "apiVersion" {
+				c[k] = v
+			}
+		}
+		return c
+	}
+	return jsonEqual(strip(a), strip(b))
 }
 
 // scrubTyped removes what a real API server loses when it decodes the patched document into the Go type of
@@ -446,7 +454,6 @@ func (s *Server) PutRaw(nskind, name string, obj map[string]interface{}) {
 		o["metadata"] = md
 	}
 	md["name"], md["namespace"] = name, ns
-	storageVersion(kind, o)
 	s.mu.Lock()
 	s.Objs[Key(ns, kind, name)] = o
 	s.mu.Unlock()
@@ -481,4 +488,49 @@ func (s *Server) PatchTypes() map[string][]string {
 		out[k] = append([]string(nil), v...)
 	}
 	return out
+}
+
+// list answers GET on a collection: the objects of the kind in the namespace (every namespace when ns is empty)
+// whose labels satisfy an equality-based label selector "k=v,k2=v2" (empty = all), in key order.  (Round 5:
+// action.recreate lists the pods of a namespace by the selector of a workload object.)
+func (s *Server) list(kind, ns, selector string) *http.Response {
+	want := map[string]string{}
+	for _, part := range strings.Split(selector, ",") {
+		part = strings.TrimSpace(part)
+		if part == "" {
+			continue
+		}
+		kv := strings.SplitN(part, "=", 2)
+		if len(kv) != 2 || strings.ContainsAny(kv[0], "!()") {
+			return status(400, "BadRequest", "label selector not supported by the stand-in: "+selector)
+		}
+		want[strings.TrimSuffix(kv[0], "=")] = strings.TrimPrefix(kv[1], "=")
+	}
+	keys := make([]string, 0, len(s.Objs))
+	for k := range s.Objs {
+		keys = append(keys, k)
+	}
+	sort.Strings(keys)
+	items := []interface{}{}
+	for _, k := range keys {
+		o := s.Objs[k]
+		if okind, _ := o["kind"].(string); okind != kind {
+			continue
+		}
+		md, _ := o["metadata"].(map[string]interface{})
+		if ons, _ := md["namespace"].(string); ns != "" && ons != ns {
+			continue
+		}
+		lbl, _ := md["labels"].(map[string]interface{})
+		match := true
+		for lk, lv := range want {
+			if v, ok := lbl[lk]; !ok || fmt.Sprint(v) != lv {
+				match = false
+			}
+		}
+		if match {
+			items = append(items, o)
+		}
+	}
+	return okJSON(200, map[string]interface{}{"kind": kind + "List", "apiVersion": "v1", "metadata": map[string]interface{}{}, "items": items})
 }
